@@ -379,15 +379,16 @@ const AllExotic Exotic = 1<<numExotic - 1
 
 // XDepPkgPrefix: two DEPENDENCY packages whose names are string prefixes of
 // each other (extone.v1 + extone.v10) exporting the same type names, used by
-// local files. NEVER switched on by the seed (only by Tuning.Force), because
-// HEAD compiles it to a result that depends on the order in which the
-// DependencySet lists its files - see limitation L22. Not part of AllExotic.
+// local files. Before /repo 2ebf8ac the compiler turned it into a result that
+// depended on the order in which the DependencySet lists its files - see
+// limitation L22 - so the seed never chose it; now it does (depPkgPrefixPct).
+// Not part of AllExotic.
 const XDepPkgPrefix Exotic = 1 << numExotic
 
 // depPkgPrefixPct is the probability (percent) with which the seed switches
-// XDepPkgPrefix on. 0 while HEAD has defect L22: with e.g. 8 here the
-// compile-order / listing-order checks report it on the clean tree.
-const depPkgPrefixPct = 0
+// XDepPkgPrefix on. It was 0 while /repo had defect L22 (with 8 here the C14
+// check reported it on the then unchanged tree; repaired in /repo 2ebf8ac).
+const depPkgPrefixPct = 8
 
 var exoticNames = [numExotic]string{
 	"dotted_file_names", "pkg_name_prefix", "shared_short_name", "alias_collision",
